@@ -397,7 +397,11 @@ def snot(x):
 
 
 def simplies(a, b):
-    return sor(snot(a), b)
+    if isinstance(a, (bool, np.bool_)):
+        return b if a else True
+    if isinstance(b, (bool, np.bool_)):
+        return True if b else snot(a)
+    return SB(z3.Implies(_term(a), _term(b)))
 
 
 def site(c, a, b):
@@ -446,6 +450,8 @@ def smod(a, b):
 
 
 def sabs(a):
+    if isinstance(a, np.ndarray):
+        return abs(a)
     if not is_sym(a):
         return abs(a)
     return wrap(z3.If(a.t >= 0, a.t, -a.t))
@@ -494,6 +500,9 @@ def to_real(x):
 
 def ssqrt(x):
     """sqrt as an uninterpreted function; axioms instantiated at this ground term"""
+    if not has_ctx():
+        import math
+        return math.sqrt(float(x))
     if not is_sym(x):
         f = Fraction(x) if not isinstance(x, float) else frac_of_float(x)
         if f < 0:
@@ -514,6 +523,8 @@ def ssqrt(x):
 
 
 def scbrt(x):
+    if not has_ctx():
+        return float(np.cbrt(float(x)))
     t = _real(_term(x))
     y = uf("cbrt", R, R)(t)
     cur().axiom(z3.And(y * y * y == t, z3.Implies(t > 0, y > 0), z3.Implies(t < 0, y < 0),
@@ -525,6 +536,9 @@ PI = z3.Real("pi")
 
 
 def pi_axiom():
+    if not has_ctx():
+        import math
+        return math.pi
     cur().axiom(z3.And(PI > z3.RealVal("3.14159265358979"), PI < z3.RealVal("3.14159265358980")), "pi")
     return SR(PI)
 
